@@ -62,6 +62,30 @@ pub fn op_auth(a: &[&str]) -> String {
     format!("{} # upper={}", res, cps_out(&upper))
 }
 
+/// auth2 <pw|hash> <dom> <user> <secret> <upper> <nonce1> <key1> <chal1> <nonce2> <key2> <chal2>
+/// TWO handshakes on ONE Ntlm object (what a long-lived authentication context does): `r1 / r2`
+pub fn op_auth2(a: &[&str]) -> String {
+    if a.len() != 11 { return "bad-args".to_string(); }
+    let (dom, user) = (cps(a[1]), cps(a[2]));
+    let upper = user.to_uppercase();
+    let r = guarded(|| {
+        let mut n = if a[0] == "hash" { Ntlm::from_hash(dom.clone(), user.clone(), &parse_bytes(a[3])) }
+                    else { Ntlm::new(dom.clone(), user.clone(), cps(a[3])) };
+        n.create_negotiate_message().unwrap();
+        let mut outs = vec![];
+        for k in 0..2 {
+            let mut preset = parse_bytes(a[5 + 3 * k]); preset.extend_from_slice(&parse_bytes(a[6 + 3 * k]));
+            rnd::verif::preset(&preset);
+            let r = n.read_challenge_message(&parse_bytes(a[7 + 3 * k]));
+            rnd::verif::preset(&[]);
+            outs.push(match r { Ok(v) => format!("ok {}", hex(&v)), Err(e) => format!("err:{}", err_name(&e)) });
+        }
+        outs.join(" / ")
+    });
+    rnd::verif::preset(&[]);
+    format!("{} # upper={}", r.unwrap_or_else(|| "panic".to_string()), cps_out(&upper))
+}
+
 pub fn op_prim(op: &str, a: &[&str]) -> String {
     match (op, a.len()) {
         ("unicode", 1) => okhex(guarded(|| verif::unicode(&cps(a[0])))),
